@@ -42,6 +42,13 @@ def runLine (line : String) : Driver.Result :=
     if impl.startsWith "ok" then ⟨"P", s!"faultaccept {line} cut={cut} {how}: impl [{impl}] violates C16: key=accepted-fragment-of-a-failed-read"⟩
     else if impl.startsWith "panic" then ⟨"P", s!"faultaccept {line} cut={cut}: {impl} violates C16: key=panic"⟩
     else ⟨"S", ""⟩
+  | ["overlong", _, size, tail, impl] =>
+    -- C16: the bytes of a line that could not be delivered (longer than the importer's limit) are not lines of the
+    -- input: the complete object they end with must never come out as an accepted row
+    if impl.startsWith "panic" then ⟨"P", s!"overlong {size}: {impl} violates C16: key=panic"⟩
+    else if (impl.splitOn (":ok:" ++ tail)).length > 1 then
+      ⟨"P", s!"overlong line of {size} bytes ending in {tail}: impl [{impl}] violates C16: key=accepted-remainder-of-an-undeliverable-line"⟩
+    else ⟨"S", ""⟩
   | ["imp", prop, f, ty, src, ext, impl] => Driver.TypedCase.runImp prop f ty src ext impl
   | ["setcol", prop, f, ty, src, ext, impl] => Driver.TypedCase.runSetCol prop f ty src ext impl
   | ["typed", _, f, ty, src, ext, w, b1, b2] => Driver.TypedCase.runTyped f ty src ext w b1 b2
